@@ -56,7 +56,9 @@ TRUSTED = [
 ]
 ASSUMPTIONS = [
     "user functions act element-wise on the array of x values and are evaluated by the derivative method unless they are fit curves",
-    "histograms without density / weights / cumulative keywords; at least one sample; at least one bin",
+    "histograms: bins (default / integer / ascending sequence with any widths / string rule, whose edges are numpy's), range, "
+    "density, weights, cumulative (True/False); at least one sample, at least one bin, bins of non-zero width and a non-zero "
+    "total inside them when density is on; histtype / align / rwidth / bottom / log / orientation / stacked are not generated",
     "data sets are non-empty; inputs are finite floats (dyadic rationals in generated cases)",
     "fit curves: agreement with fit_function is statistical (6 sigma of the sampling error of 10000 samples), not exact",
     "fit curves of models that are NOT linear in their parameters (exponential, gaussian) are drawn as the Monte Carlo mean of "
@@ -269,6 +271,24 @@ def gen_hist(rng):
         h["range"] = [lo, lo + rng.choice([0.5, 1.0, 2.0, 4.0, 8.0, 12.0])]
         if rng.random() < 0.06:
             h["range"] = [lo, lo]
+    # the rest of the keyword space the library forwards: density, weights, cumulative, string rules
+    h["density"] = rng.choice([None, None, None, True, True, False])
+    h["weights"] = [rng.choice([0.0, 0.25, 0.5, 1.0, 1.0, 2.0, 4.0]) for _ in range(n)] if rng.random() < 0.3 else None
+    h["cumulative"] = rng.choice([None, None, None, True, False])
+    if h["weights"] is None and not isinstance(h["bins"], list) and rng.random() < 0.15:
+        h["bins"] = rng.choice(["auto", "sturges", "sqrt", "doane", "fd"])
+    return hist_sane(h)
+
+
+def hist_sane(h):
+    """density needs a non-zero total inside the bins (numpy would return NaN)"""
+    if h.get("density"):
+        try:
+            raw, edges = exp_hist_raw(h)
+            if sum(raw) == 0 or any(edges[i + 1] == edges[i] for i in range(len(edges) - 1)):
+                h = dict(h, density=None)
+        except Exception:  # noqa
+            h = dict(h, density=None)
     return h
 
 
@@ -310,8 +330,9 @@ def gen_script(rng, kind=None):
         for _ in range(rng.randint(0, 2)):
             objs.append(rng.choice([gen_hist, gen_func, gen_data])(rng))
         if rng.random() < 0.3:
-            h = dict(gen_hist(rng), bins=rng.choice([5, 6, 8]), range=None)
+            h = dict(gen_hist(rng), bins=rng.choice([5, 6, 8]), range=None, weights=None)
             h["samples"] = [dyad(rng, -8, 8) for _ in range(rng.randint(12, 30))]
+            h = hist_sane(h)
             objs.append(h)
             objs.append(gen_plotfit(rng))
     elif kind == "labels":
@@ -507,11 +528,16 @@ def add_object(p, spec, handles):
             kw["range"] = tuple(spec["range"])
         if spec["label"] is not None:
             kw["label"] = spec["label"]
+        for k in ("density", "cumulative"):
+            if spec.get(k) is not None:
+                kw[k] = spec[k]
+        if spec.get("weights") is not None:
+            kw["weights"] = list(spec["weights"])
         samples = list(spec["samples"])
         if spec["form"] == "marray":
             samples = q.MeasurementArray(samples, 0.25)
         n, edges = p.hist(samples, **kw)
-        return {"returned": ([int(v) for v in n], [float(e) for e in edges])}
+        return {"returned": ([float(v) for v in n], [float(e) for e in edges])}
     raise ValueError(kind)
 
 
@@ -797,23 +823,53 @@ def exp_linspace(lo, hi, n=100):
     return [lo + i * (hi - lo) / (n - 1) for i in range(n)]
 
 
-def exp_hist(spec):
-    """numpy's rule, in exact arithmetic: equal-width bins over the range (or min..max), last bin closed"""
+def rule_edges(spec):
+    """bins given as a string rule: the bin edges are numpy's choice (trusted estimator, asked directly)"""
+    import numpy as np
+    kw = {"range": tuple(spec["range"])} if spec["range"] is not None else {}
+    return [Fraction(float(e)) for e in np.histogram_bin_edges(np.asarray(spec["samples"], dtype=float), bins=spec["bins"], **kw)]
+
+
+def exp_hist_raw(spec):
+    """(weighted) bin contents by numpy's rule, in exact arithmetic: equal-width bins over the range (or min..max) for an
+    integer, the given edges for a sequence; bin i is [e_i, e_i+1), the last bin closed; a sample counts with its weight"""
     s = [Fraction(v) for v in spec["samples"]]
+    w = [Fraction(v) for v in spec["weights"]] if spec.get("weights") is not None else [Fraction(1)] * len(s)
     if isinstance(spec["bins"], list):
         edges = [Fraction(e) for e in spec["bins"]]
+    elif isinstance(spec["bins"], str):
+        edges = rule_edges(spec)
     else:
         k = spec["bins"] if spec["bins"] is not None else 10
         lo, hi = (Fraction(spec["range"][0]), Fraction(spec["range"][1])) if spec["range"] is not None else (min(s), max(s))
         if lo == hi:
             lo, hi = lo - Fraction(1, 2), hi + Fraction(1, 2)
         edges = [lo + i * (hi - lo) / k for i in range(k + 1)]
-    counts = []
+    raw = []
     for i in range(len(edges) - 1):
         a, b = edges[i], edges[i + 1]
         last = i == len(edges) - 2
-        counts.append(sum(1 for v in s if a <= v and (v <= b if last else v < b)))
-    return counts, edges
+        raw.append(sum((wt for v, wt in zip(s, w) if a <= v and (v <= b if last else v < b)), Fraction(0)))
+    return raw, edges
+
+
+def exp_hist(spec):
+    """(values returned to the caller, edges, bar heights): densities = content / (total * width) when density is on;
+    cumulative bars are running sums of the contents (of density * width for densities)"""
+    raw, edges = exp_hist_raw(spec)
+    widths = [edges[i + 1] - edges[i] for i in range(len(raw))]
+    if spec.get("density"):
+        total = sum(raw)
+        ret = [r / wd / total for r, wd in zip(raw, widths)]
+    else:
+        ret = list(raw)
+    heights = list(ret)
+    if spec.get("cumulative"):
+        acc, heights = Fraction(0), []
+        for v, wd in zip(ret, widths):
+            acc += v * wd if spec.get("density") else v
+            heights.append(acc)
+    return ret, edges, heights
 
 
 def target_of(specs, i, aux):
@@ -831,7 +887,7 @@ def target_of(specs, i, aux):
             n = len(t["x"])
             return [float(v) for v in t["x"]], [float(v) for v in t["y"]], err_list(t["xerr"], n), err_list(t["yerr"], n), None, t
         if t["kind"] == "hist":
-            counts, edges = exp_hist(t)
+            counts, edges, _ = exp_hist(t)
             xs = [float((edges[k] + edges[k + 1]) / 2) for k in range(len(counts))]
             return xs, [float(c) for c in counts], [0.0] * len(xs), [0.0] * len(xs), None, None
     return None
@@ -849,8 +905,12 @@ def obj_range(specs, i, aux):
         if t[4] is not None:
             return tuple(t[4])
         return (min(t[0]), max(t[0]))
-    _, edges = exp_hist(s)
+    _, edges, _ = exp_hist(s)
     return (edges[0], edges[-1])
+
+
+def hist_kw_text(s):
+    return ", ".join("{}={}".format(k, s[k]) for k in ("bins", "range", "density", "weights", "cumulative") if s.get(k) is not None)
 
 
 def exp_label(name, unit):
@@ -869,15 +929,18 @@ def oracle(script, order, run):
     # what Plot.hist returned
     hs = [s for s in specs if s["kind"] == "hist"]
     for s, (n, edges) in zip(hs, obs["returned"]):
-        counts, e = exp_hist(s)
-        if n != counts or not lclose(edges, [float(v) for v in e]):
-            return "hist returned counts {} edges {}, the samples give counts {} edges {}".format(
-                n, edges, counts, [float(v) for v in e])
+        ret, e, _ = exp_hist(s)
+        if not lclose(n, [float(v) for v in ret]) or not lclose(edges, [float(v) for v in e]):
+            return "hist({}) returned {} edges {}, the samples give {} edges {}".format(
+                hist_kw_text(s), n, edges, [float(v) for v in ret], [float(v) for v in e])
         lo, hi = e[0], e[-1]
-        inside = sum(1 for v in s["samples"] if lo <= Fraction(v) <= hi)
-        if sum(n) != inside:
-            return "hist returned counts summing to {} but {} samples lie within [{}, {}]".format(
-                sum(n), inside, float(lo), float(hi))
+        wts = s["weights"] if s.get("weights") is not None else [1.0] * len(s["samples"])
+        inside = sum(Fraction(w) for v, w in zip(s["samples"], wts) if lo <= Fraction(v) <= hi)
+        if not s.get("density") and not close(sum(n), float(inside)):
+            return "hist({}) returned contents summing to {} but the (weighted) number of samples within [{}, {}] is {}".format(
+                hist_kw_text(s), sum(n), float(lo), float(hi), float(inside))
+        if s.get("density") and not close(sum(v * float(e[k + 1] - e[k]) for k, v in enumerate(n)), 1.0, 1e-9, 1e-9):
+            return "hist({}) returned densities {} that do not integrate to 1".format(hist_kw_text(s), n)
     # can the plot be rendered at all?
     ranges = [obj_range(specs, i, aux) for i in range(len(specs))]
     have = [r for r in ranges if r is not None]
@@ -951,10 +1014,24 @@ def oracle(script, order, run):
                 elif o["res"] is not None:
                     return where + ": residuals drawn although the residual panel is off"
             else:
-                counts, edges = exp_hist(s)
-                bars = [[float(edges[k]), float(edges[k + 1] - edges[k]), float(counts[k])] for k in range(len(counts))]
+                ret, edges, heights = exp_hist(s)
+                bars = [[float(edges[k]), float(edges[k + 1] - edges[k]), float(heights[k])] for k in range(len(heights))]
                 if len(bars) != len(o["bars"]) or not all(lclose(b, c) for b, c in zip(bars, o["bars"])):
-                    return "{}: bars (left, width, height) {} but the samples give {}".format(where, o["bars"], bars)
+                    return "{}: hist({}): bars (left, width, height) {} but the samples give {}".format(
+                        where, hist_kw_text(s), o["bars"], bars)
+                # (a) against the values that were returned to the caller
+                n_ret = obs["returned"][sum(1 for t in specs[:i] if t["kind"] == "hist")][0]
+                drawn = [b[2] for b in o["bars"]]
+                if s.get("cumulative"):
+                    acc, want = 0.0, []
+                    for k, v in enumerate(n_ret):
+                        acc += v * (o["bars"][k][1]) if s.get("density") else v
+                        want.append(acc)
+                else:
+                    want = n_ret
+                if not (len(drawn) == len(want) and all(close(a_, b_, 1e-9, 1e-9) for a_, b_ in zip(drawn, want))):
+                    return "{}: hist({}): bar heights {} are not the values returned to the caller {}{}".format(
+                        where, hist_kw_text(s), drawn, n_ret, " (accumulated)" if s.get("cumulative") else "")
         # labels
         xy = []
         for s, a in zip(specs, aux):
@@ -1106,9 +1183,12 @@ def shrink_case(case):
                 mk(objs[:i] + [cut_data(o, keep)] + objs[i + 1:], st)))
             objs[i] = cut_data(o, idx)
         if o["kind"] == "hist" and len(o["samples"]) > 1:
-            keep = core.shrink_list(list(o["samples"]), lambda s: bool(s) and fails(
-                mk(objs[:i] + [dict(o, samples=s)] + objs[i + 1:], st)))
-            objs[i] = dict(o, samples=keep)
+            def cut_hist(idx, o=o):
+                return dict(o, samples=[o["samples"][k] for k in idx],
+                            weights=[o["weights"][k] for k in idx] if o.get("weights") is not None else None)
+            keep = core.shrink_list(list(range(len(o["samples"]))), lambda idx: bool(idx) and fails(
+                mk(objs[:i] + [cut_hist(idx)] + objs[i + 1:], st)))
+            objs[i] = cut_hist(keep)
     return mk(objs, st)
 
 
@@ -1262,10 +1342,17 @@ def cobj(spec, a, specs, i, aux):
                                                 ql([1.1 * e for e in a.get("fitfn_err_at_curve", [])]),
                                                 txt(spec["label"] or ""))
     bins = spec["bins"]
-    cb = "None" if bins is None else ("(Some (BSeq {}))".format(ql(bins)) if isinstance(bins, list)
-                                      else "(Some (BInt {}%nat))".format(bins))
-    return I("(CHist (mk_hist_obj {} (mk_hist_kw {} {} {})))".format(
-        ql(spec["samples"]), cb, crange(spec["range"]), coq_option(spec["label"], txt)))
+    if bins is None:
+        cb = "None"
+    elif isinstance(bins, list):
+        cb = "(Some (BSeq {}))".format(ql(bins))
+    elif isinstance(bins, str):
+        cb = "(Some (BRule {}))".format(ql(rule_edges(spec)))        # numpy's estimator is an oracle of the model
+    else:
+        cb = "(Some (BInt {}%nat))".format(bins)
+    return I("(CHist (mk_hist_obj {} (mk_hist_kw {} {} {} {} {} {})))".format(
+        ql(spec["samples"]), cb, crange(spec["range"]), coq_option(spec["label"], txt), coq_bool(bool(spec.get("density"))),
+        coq_option(spec.get("weights"), ql), coq_bool(bool(spec.get("cumulative")))))
 
 
 def cseg(s):
@@ -1316,7 +1403,7 @@ def ccase(script, order, run, fig=None):
         txt(fig["xlabel"]) if ok else "[]", txt(fig["ylabel"]) if ok else "[]", txt(fig["title"]) if ok else "[]",
         coq_option(fig["res_xlabel"], txt) if ok else "None",
         coq_option(fig["legend"], lambda l: coq_list([txt(t) for t in l])) if ok else "None",
-        coq_list(["({}, {})".format(coq_list(["{}%nat".format(c) for c in n]), ql(e)) for n, e in obs["returned"]]))
+        coq_list(["({}, {})".format(ql(n), ql(e)) for n, e in obs["returned"]]))
     return "({}, {}, {})".format(cfg, objs, ob)
 
 
@@ -1376,6 +1463,14 @@ def nontrivial_key(script, order, run):
             tags.add("fit")
         if s["kind"] == "hist":
             tags.add("hist-seq" if isinstance(s["bins"], list) else ("hist-range" if s["range"] else "hist"))
+            for k in ("density", "weights", "cumulative"):
+                if s.get(k):
+                    tags.add("hist-" + k)
+            if isinstance(s["bins"], str):
+                tags.add("hist-rule")
+            if isinstance(s["bins"], list) and s.get("density") and len(set(
+                    s["bins"][k + 1] - s["bins"][k] for k in range(len(s["bins"]) - 1))) > 1:
+                tags.add("hist-density-unequal-widths")
     if run["obs"]["status"] != "ok":
         tags.add(run["obs"]["status"])
     return tags
@@ -1412,6 +1507,21 @@ def correspondence(ctx):
                       "yname": "", "xunit": "", "yunit": "", "entry": "class", "renders": 1, "settings_first": True}
                 cases.append(({"seed": 1, "objects": [d], "settings": st, "kind": "mask-grid"}, [0], "mask-grid"))
                 n_grid += 1
+    # exhaustive small scope of the histogram keywords the library forwards: every combination of binning
+    # (integer / equal-width sequence / unequal-width sequence / integer with range) x density x weights x cumulative
+    hs = [-1.5, -1.0, -1.0, 0.0, 0.25, 0.5, 0.5, 0.5, 1.0, 2.0, 2.5, 4.0]
+    hw = [1.0, 0.5, 2.0, 1.0, 0.25, 4.0, 1.0, 0.0, 2.0, 1.0, 0.5, 1.0]
+    n_hgrid = 0
+    for hb, hr in ((4, None), ([-2.0, 0.0, 2.0, 4.0], None), ([-2.0, -1.0, 0.0, 0.5, 1.0, 4.0], None), (3, [-1.0, 2.0])):
+        for dens in (None, True):
+            for wts in (None, hw):
+                for cum in (None, True):
+                    h = {"kind": "hist", "samples": hs, "bins": hb, "range": hr, "label": None, "form": "list",
+                         "density": dens, "weights": wts, "cumulative": cum}
+                    st = {"error_bars": True, "residuals": False, "legend": False, "xrange": None, "title": "", "xname": "",
+                          "yname": "", "xunit": "", "yunit": "", "entry": "class", "renders": 1, "settings_first": True}
+                    cases.append(({"seed": 1, "objects": [h], "settings": st, "kind": "hist-grid"}, [0], "hist-grid"))
+                    n_hgrid += 1
     sets = []
     for j in range(n_sets):
         k = rng.choice([2, 2, 3, 3] if ctx.quick else [2, 3, 3, 3, 4])
@@ -1516,7 +1626,7 @@ def correspondence(ctx):
     res.rule = ("random plot scripts: 1-5 objects (data sets +/- x/y uncertainties (scalar or list), names, units, x-range whose "
                 "bounds often coincide with data values; polynomial functions +/- a measured parameter +/- own x-range; fit "
                 "results of linear/quadratic/polynomial/exponential/gaussian/custom models made by fit(), XYDataSet.fit() or "
-                "Plot.fit() on a data set or a histogram, +/- fit x-range; histograms with default/integer/sequence bins +/- "
+                "Plot.fit() on a data set or a histogram, +/- fit x-range; histograms with default/integer/unequal-width sequence/string-rule bins +/- density, weights, cumulative, +/- "
                 "range), error-bar / residual / legend switches, explicit plot x-range, label overrides, one or two renders, "
                 "class or module-level entry points; a malformed stream of plots that cannot be rendered (no x-range anywhere, "
                 "explicitly empty function range); and small object sets added in ALL orders. Each is rendered by savefig on "
@@ -1530,6 +1640,8 @@ def correspondence(ctx):
                     "xlabel": c[3]["obs"].get("xlabel"), "legend": c[3]["obs"].get("legend")} for c in usable[:4]]
     res.extra["order_sets"] = len(sets)
     res.extra["mask_grid_exhaustive"] = "{} (low, high) pairs over {} for the data x = [0, 1, 2, 1]".format(n_grid, grid)
+    res.extra["hist_keyword_grid_exhaustive"] = "{} combinations: binning (integer, equal sequence, unequal sequence, integer+range) " \
+                                                "x density x weights x cumulative on 12 samples".format(n_hgrid)
     res.extra["histories_with_an_early_render"] = sum(1 for c in usable if c[0]["settings"].get("early_render"))
     res.extra["rendered_twice"] = sum(1 for c in usable if c[0]["settings"].get("renders", 1) > 1)
     res.extra["rendered_ok"] = len(ok_cases)
